@@ -124,12 +124,17 @@ class TypeEnv:
         s, const = self._strip_cv(s)
         s = s.strip()
         # function pointer / reference to function:  R (*)(A, B)   R (&)(A)
-        m = re.match(r'^(.*?)\s*\((\*|&)\)\s*\((.*)\)(\s*(const|noexcept(\(true\))?))*$', s)
-        if m and self._balanced(m.group(1)):
+        m = re.match(r'^(.*?)\s*\(\s*(\*|&|&&|\*\s*(?:const\s*)?&|\*\s*(?:const\s*)?&&|\*\s*const)\s*\)\s*\((.*)\)(\s*(const|noexcept(\(true\))?))*$', s)
+        if m and self._balanced(m.group(1)) and self._balanced(m.group(3)):
             t = T('func')
             t.ret = self._parse(m.group(1))
             t.params = [self._parse(a) for a in split_top(m.group(3))] if m.group(3).strip() not in ('', 'void') else []
-            return T('ptr', to=t)
+            d = m.group(2).replace('const', '').replace(' ', '')
+            if d in ('*',):
+                return T('ptr', to=t)
+            if d in ('&', '&&'):
+                return T('ref', to=t, rref=(d == '&&'))
+            return T('ref', to=T('ptr', to=t), rref=d.endswith('&&'))
         m = re.match(r'^(.*?)\s*\((\*|&|&&)\)\s*\[(\d*)\]$', s)
         if m and self._balanced(m.group(1)):
             arr = T('array', to=self._parse(m.group(1)), n=m.group(3))
@@ -150,6 +155,10 @@ class TypeEnv:
             t.ret = self._parse(m.group(1))
             t.params = [self._parse(a) for a in split_top(m.group(2))] if m.group(2).strip() not in ('', 'void') else []
             return t
+        m = re.match(r'^(?:std::)?enable_if_t<(.*)>$', s)
+        if m:      # an instantiated declaration exists only if the condition held: the type is the second argument
+            args = split_top(m.group(1))
+            return self._parse(args[1] if len(args) > 1 else 'void')
         if s in BUILTIN:
             return T('builtin', BUILTIN[s], const=const)
         if s in self.typedefs:
@@ -218,5 +227,12 @@ class TypeEnv:
             return '%s[%s]' % (self.canon(t.to), t.n)
         return '%s(%s)' % (self.canon(t.ret), ','.join(self.canon(p) for p in t.params))
 
+    lambda_ctx = None
+    lambda_names = {}
+
     def record_cname(self, name):
+        if name.startswith('(lambda at'):
+            c = self.lambda_names.get((self.lambda_ctx, name))
+            if c:
+                return c
         return self.record_names.get(name) or sanitize(name)
